@@ -4,9 +4,9 @@
     Run/Eval_C10.v.  Unit: nanoseconds in [Z]; `exp`/NotAfter in whole seconds.
 
     [f : fixes] selects the code: [fx_none] = the originally pinned tree,
-    [fx1/fx2/fx3 f = true] = with the fix: commits 637ae67 (C10-F1), c971513
+    [fx1 .. fx5 f = true] = with the fix: commits 637ae67 (C10-F1), c971513
     (C10-F2), e0dc5e2 (C10-F3), a3cbbb3 (C10-F4), 8647e06 (C10-F5); /repo contains all
-    five ([fx_all]); [fx_repo] = the tree before the last two.  Theorems about
+    five ([fx_all]); [fx_before_F4] = the tree with the first three only.  Theorems about
     repaired defects carry the hypothesis [fx<n> f = true] and no guard; what the
     code did before is kept as [C10_F<n>_pinned_refuted]. *)
 From HV Require Import Base.Prelude Base.Time C10.Model C10.Proofs C10.Mixed Run.Eval_C10 C10.Sound C10.SoundHist.
@@ -44,15 +44,18 @@ Theorem C10_finalizer_token_not_expired : forall f st now d s t,
 Proof. exact finalizer_token_not_expired. Qed.
 Print Assumptions C10_finalizer_token_not_expired.
 
-(** a ttl of zero in force for the rule (rule-level setting, else the
-    mechanism's) disables both the lookup and the store *)
-Theorem C10_zero_disables : forall f m conf rule,
+(** a ttl of zero -- or a negative one -- in force for the rule (rule-level setting,
+    else the mechanism's) disables both the lookup and the store.  The jwt
+    finalizer is excepted: its `ttl` is the lifetime of the token it issues, it
+    always looks up, and a value <= 5 s only disables the store
+    ([C10_store_positive], [C10_finalizer_token_not_expired]) *)
+Theorem C10_zero_disables : forall f m conf rule c,
   fx3 f = true ->
   m <> MJwtFin ->
-  spec_cfg m conf rule = Some 0 ->
+  spec_cfg m conf rule = Some c -> c <= 0 ->
   let st := withconfig_ttl f m (create_ttl m conf) rule in
   lookup_enabled m st = false /\ forall exp now, store f m st exp now = None.
-Proof. exact zero_disables_fixed. Qed.
+Proof. exact nonpositive_disables_fixed. Qed.
 Print Assumptions C10_zero_disables.
 
 (** a configured ttl is an upper bound of what is handed to the cache (together
@@ -75,7 +78,9 @@ Print Assumptions C10_rule_level_ttl_bounds.
 (** RFC 7234 responses, for ALL values of max-age / Expires (absent, unparsable,
     any instant) / Date / Age and any default ttl: [rfc_remaining] (C10/Proofs.v,
     transcribed from RFC 7234 4.2.1, 4.2.3, 5.3, independent of the model) is the
-    freshness a response has left when it arrives: lifetime (max-age, else
+    freshness a response has left when it arrives (the lifetime part is
+    independent of the model; the current-age term max(Age, now - Date) is the
+    same expression in model and specification): lifetime (max-age, else
     Expires - Date, unparsable Expires = expired, else the default ttl) minus
     current age (max of Age and now - Date).  What [cacheResponse] hands to the
     cache is positive and within it (repair of C10-F4, a3cbbb3: [fx4]) *)
@@ -120,27 +125,27 @@ Theorem C10_http_not_stored_without_lifetime : forall f cachable h dflt now1 now
 Proof. exact http_hdr_not_stored_without_lifetime. Qed.
 Print Assumptions C10_http_not_stored_without_lifetime.
 
-(** also before the repair of C10-F4 the code respected the lifetime the response
-    declares, only not its age: the ttl is positive and at most the declared
-    lifetime / the default ttl *)
-Theorem C10_F4_pinned_bound : forall f cachable h dflt now1 now2 ttl,
+(** with or without the repair of C10-F4 the code respects the lifetime the
+    response declares (before a3cbbb3: only not its age): the ttl is positive and at
+    most the declared lifetime / the default ttl *)
+Theorem C10_http_declared_lifetime_bound : forall f cachable h dflt now1 now2 ttl,
   fx2 f = true -> now1 <= now2 ->
   http_store_decision f cachable (lib_expires h now1) dflt now1 now2 = Some ttl ->
   0 < ttl /\
   ((bad_expires h = true /\ ttl <= dflt /\ 0 < dflt) \/
    (bad_expires h = false /\ exists l, lifetime_or_default h dflt now2 = Some l /\ ttl <= l)).
 Proof. exact core_decision_bound. Qed.
-Print Assumptions C10_F4_pinned_bound.
+Print Assumptions C10_http_declared_lifetime_bound.
 
 (** C10-F4 before a3cbbb3: `Age: 3599, max-age=3600` stored for the full hour;
     `Expires: 0` + `default_ttl: 5s` stored for 5 s *)
 Theorem C10_F4_pinned_refuted :
-  (guard_F4 fx_repo h_aged 0 (secs 1000) = true /\
+  (guard_F4 fx_before_F4 h_aged 0 (secs 1000) = true /\
    rfc_remaining h_aged 0 (secs 1000) = Some (secs 1) /\
-   http_store_hdr fx_repo true h_aged 0 (secs 1000) (secs 1000) = Some (secs 3600)) /\
-  (guard_F4 fx_repo h_badexp (secs 5) (secs 1000) = true /\
+   http_store_hdr fx_before_F4 true h_aged 0 (secs 1000) (secs 1000) = Some (secs 3600)) /\
+  (guard_F4 fx_before_F4 h_badexp (secs 5) (secs 1000) = true /\
    rfc_remaining h_badexp (secs 5) (secs 1000) = Some 0 /\
-   http_store_hdr fx_repo true h_badexp (secs 5) (secs 1000) (secs 1000) = Some (secs 5)).
+   http_store_hdr fx_before_F4 true h_badexp (secs 5) (secs 1000) (secs 1000) = Some (secs 5)).
 Proof. exact F4_refuted. Qed.
 Print Assumptions C10_F4_pinned_refuted.
 
@@ -156,8 +161,14 @@ Theorem C10_no_hit_after_expiry : forall b f m st h now0,
 Proof. exact no_hit_after_expiry_mech_fixed. Qed.
 Print Assumptions C10_no_hit_after_expiry.
 
-(** the same for responses cached by the RFC 7234 round tripper ([D]: bound on
-    the delay between [time.Until] and the cache's own clock reading) *)
+(** round-tripper histories: no hit later than [e + D], where [e] = [r_exp] is the
+    expiry instant the LIBRARY computed for the response (its clock + lifetime; no
+    Age -- [http_policy] does not subtract the current age) and [D] bounds the
+    delay between [time.Until] and the cache applying the ttl.  This is NOT a
+    statement in terms of RFC 7234 remaining freshness: for that the store
+    decision ([C10_http_within_rfc_freshness_at_set]) and the cache's expiry
+    enforcement ([C10_cache_expiry_enforced]) are proved separately and not
+    composed over histories *)
 Theorem C10_no_hit_after_expiry_http : forall b f dflt D h now0,
   fx2 f = true ->
   wf_hist D h ->
@@ -199,10 +210,10 @@ Print Assumptions C10_hit_age_within_ttl_in_force.
 Theorem C10_F5_pinned_refuted :
   let fr := {| r_id := 7; r_exp := Some 9000 |} in
   let h := [MReq 1 (Some (secs 3600)) fr 0; MAdv (secs 100); MReq 1 (Some (secs 5)) {| r_id := 8; r_exp := Some 9000 |} 0] in
-  guard_F5 fx_repo MIntro [Some (secs 3600); Some (secs 5)] = true /\
+  guard_F5 fx_before_F4 MIntro [Some (secs 3600); Some (secs 5)] = true /\
   wf_mhist max_delay h /\
-  In (MHit (secs 1100) (Some (secs 5)) fr) (runm Mem fx_repo MIntro (secs 1000) [] h) /\
-  ~ (exists tc ts ttl, In (MMiss tc ts (Some (secs 5)) fr (Some ttl)) (runm Mem fx_repo MIntro (secs 1000) [] h)).
+  In (MHit (secs 1100) (Some (secs 5)) fr) (runm Mem fx_before_F4 MIntro (secs 1000) [] h) /\
+  ~ (exists tc ts ttl, In (MMiss tc ts (Some (secs 5)) fr (Some ttl)) (runm Mem fx_before_F4 MIntro (secs 1000) [] h)).
 Proof. exact F5_refuted. Qed.
 Print Assumptions C10_F5_pinned_refuted.
 
@@ -240,18 +251,30 @@ Theorem C10_F3_pinned_refuted :
 Proof. exact F3_refuted. Qed.
 Print Assumptions C10_F3_pinned_refuted.
 
-(** non-vacuity: ordinary inputs satisfy the hypotheses of the main theorems, and
-    the former witnesses of C10-F1/F2/F3 are not cached by the repaired code *)
+(** non-vacuity under the repaired code: ordinary inputs are cached, the former
+    witnesses of C10-F1/F2/F3 are not; a mechanism history and a round-tripper
+    history contain a hit; an aged response with freshness left is stored for what
+    is left; a request under the same ttl is answered from cache with the ttl in
+    the key *)
 Theorem C10_nonvacuous :
-  store fx_all MIntro s300 (Some 1005) (secs 1000) = None /\
-  store fx_all MJwtKey None (Some 1005) (secs 1000) = None /\
-  store fx_all MClientCred s300 (Some (secs 1003)) (secs 1000) = None /\
-  store fx_all MIntro s300 (Some 1100) (secs 1000) = Some (secs 90) /\
-  store fx_all MJwtKey None (Some 2000) (secs 1000) = Some (secs 600) /\
-  store fx_all MClientCred None (Some (secs 1100)) (secs 1000) = Some (secs 95) /\
-  http_store_decision fx_all true (Some (secs 1000)) 0 (secs 1000) (secs 1000) = None /\
-  lookup_enabled MRemote (withconfig_ttl fx_all MRemote (create_ttl MRemote (Some (secs 30))) (Some 0)) = false.
-Proof. exact fixed_witnesses. Qed.
+  (store fx_all MIntro s300 (Some 1005) (secs 1000) = None /\
+   store fx_all MJwtKey None (Some 1005) (secs 1000) = None /\
+   store fx_all MClientCred s300 (Some (secs 1003)) (secs 1000) = None /\
+   store fx_all MIntro s300 (Some 1100) (secs 1000) = Some (secs 90) /\
+   store fx_all MJwtKey None (Some 2000) (secs 1000) = Some (secs 600) /\
+   store fx_all MClientCred None (Some (secs 1100)) (secs 1000) = Some (secs 95) /\
+   http_store_decision fx_all true (Some (secs 1000)) 0 (secs 1000) (secs 1000) = None /\
+   lookup_enabled MRemote (withconfig_ttl fx_all MRemote (create_ttl MRemote (Some (secs 30))) (Some 0)) = false) /\
+  ((exists t v, In (Hit t v) (run Redis (lookup_enabled MIntro s300) (mech_policy fx_all MIntro s300) (secs 1000) []
+      [Req 1 {| r_id := 7; r_exp := Some 1100 |} 0; Adv (secs 50); Req 1 {| r_id := 8; r_exp := Some 1300 |} 0])) /\
+   (exists t v, In (Hit t v) (run Mem true (http_policy fx_all 0) (secs 1000) []
+      [Req 1 {| r_id := 7; r_exp := Some (secs 1010) |} 0; Adv (secs 5); Req 1 {| r_id := 8; r_exp := Some (secs 1020) |} 0])) /\
+   http_store_hdr fx_all true h_aged 0 (secs 1000) (secs 1000) = Some (secs 1)) /\
+  (let fr := {| r_id := 7; r_exp := Some 9000 |} in
+   In (MHit (secs 1010) (Some (secs 60)) fr)
+      (runm Mem fx_all MIntro (secs 1000) []
+         [MReq 1 (Some (secs 60)) fr 0; MAdv (secs 10); MReq 1 (Some (secs 60)) {| r_id := 8; r_exp := Some 9000 |} 0])).
+Proof. exact (conj fixed_witnesses (conj nonvacuous_fixed mixed_hit_fixed)). Qed.
 Print Assumptions C10_nonvacuous.
 
 (** ** the correspondence evaluator is sound w.r.t. these theorems
@@ -267,9 +290,10 @@ Print Assumptions C10_nonvacuous.
     can fire, so there correspondence alone implies it.  Hence every property
     failure the check reports is a disagreement between implementation and model.
     [wf_case] (C10/SoundHist.v) is what the driver guarantees: measured bracket
-    at most [max_delay] wide; no expiry information for mechanisms without one;
-    for histories non-decreasing instants, unique payload ids and every model ttl
-    above the measurement slack. *)
+    at most [max_delay] wide; no expiry information for mechanisms without one; a
+    non-negative Age value and body delay; for histories non-decreasing instants
+    and unique payload ids.  [wf_case] is [False] for CMix and CBroken: mixed-rule
+    cases have no soundness theorem, their [v_prop] is checked as it is. *)
 Theorem C10_check_sound : forall f c,
   wf_case f c ->
   v_corr (check f c) = true -> v_guards (check f c) = [] -> v_prop (check f c) = true.
